@@ -29,6 +29,7 @@ import io
 import json
 import os
 import random
+import re
 import sys
 import time
 
@@ -69,11 +70,16 @@ class _FakeSock:
         return self.bio
 
 
+_VERSION = re.compile(rb'HTTP/(\d)\.(\d) ')
+
+
 def decode_responses(data, method='GET', limit=6):
-    """Successive responses in `data` -> [(end offset, status, parse, announces_close, why)].
+    """Successive responses in `data` -> [(end offset, status, parse, announces_close, why, version)].
     parse: "ok" | "garbage" (http.client finds no status line it accepts / the
-    headers do not parse) | "incomplete" (headers fine, body shorter than
-    announced); why = class name of http.client's exception."""
+    headers do not parse / the version token is not HTTP-name "/" DIGIT "." DIGIT,
+    which http.client does not check: why = "BadVersionToken") | "incomplete"
+    (headers fine, body shorter than announced); why = class name of http.client's
+    exception; version = 1000 * major + minor of the status line (0 if garbage)."""
     out = []
     pos = 0
     while pos < len(data) and len(out) < limit:
@@ -82,8 +88,13 @@ def decode_responses(data, method='GET', limit=6):
         try:
             r.begin()
         except (http.client.HTTPException, ValueError, OSError, UnicodeError) as e:
-            out.append((len(data), 0, 'garbage', False, type(e).__name__))
+            out.append((len(data), 0, 'garbage', False, type(e).__name__, 0))
             return out
+        m = _VERSION.match(data, pos)
+        if not m:
+            out.append((len(data), 0, 'garbage', False, 'BadVersionToken', 0))
+            return out
+        ver = 1000 * int(m.group(1)) + int(m.group(2))
         toks = [t.strip() for t in ','.join(r.headers.get_all('Connection') or []).lower().split(',')]
         sc = 'close' in toks or (r.version == 10 and 'keep-alive' not in toks) or \
             (r.length is None and not r.chunked)          # close-delimited body
@@ -91,12 +102,12 @@ def decode_responses(data, method='GET', limit=6):
         try:
             r.read()
         except (http.client.HTTPException, ValueError, OSError) as e:
-            out.append((len(data), r.status, 'incomplete', sc, type(e).__name__))
+            out.append((len(data), r.status, 'incomplete', sc, type(e).__name__, ver))
             return out
         if not r.chunked and r.length not in (None, 0):     # read() came back short without raising
             short = True
         pos += bio.tell()
-        out.append((pos, r.status, 'incomplete' if short else 'ok', sc, ''))
+        out.append((pos, r.status, 'incomplete' if short else 'ok', sc, '', ver))
     return out
 
 
@@ -217,9 +228,9 @@ class World:
             for pos, d in ws:
                 tot += len(d)
                 ends.append((tot, pos))
-            for n, (end, st, pr, sc, why) in enumerate(decode_responses(data)):
+            for n, (end, st, pr, sc, why, ver) in enumerate(decode_responses(data)):
                 pos = next(p for t, p in ends if t >= min(end, tot))
-                inserts.append((pos, n, line('resp', c, st=st, pr=pr, sc=sc)))
+                inserts.append((pos, n, line('resp', c, st=st, pr=pr, sc=sc, a=ver)))
                 if why:
                     self.decoder.append(why)
                     self.notes.append('decoder on connection %d: %s; bytes %r' % (c, why, data[:80]))
@@ -468,8 +479,9 @@ def effective_history(done):
 
 def norm_real(lines):
     """The projection of a real trace the model commits itself to (tuples shaped
-    like HttpConn!Compact): the size of an input is not predicted."""
-    return tuple((ln['k'], ln['c'], ln['cls'], ln['st'], ln['pr'], bool(ln['sc']), 0 if ln['k'] == 'in' else ln['a'], ln['b'])
+    like HttpConn!Compact): the size of an input and the version label of a response
+    are not predicted."""
+    return tuple((ln['k'], ln['c'], ln['cls'], ln['st'], ln['pr'], bool(ln['sc']), 0 if ln['k'] in ('in', 'resp') else ln['a'], ln['b'])
                  for ln in lines)
 
 
@@ -620,6 +632,9 @@ def witness_of(lines, badline, notes):
         w['table'] = 'parser' if bl['a'] and not bl['b'] else ('client' if bl['b'] and not bl['a'] else 'both')
     if bl['k'] == 'alive':
         w['why'] = bl['pr'] or 'close_owed'
+    if bl['k'] == 'close':
+        w['why'] = 'closed_after_keepalive_response' if resp else 'closed_without_answer'
+    w['respver'] = resp[0]['a'] if resp else 0
     dec = sorted({n.split(':', 1)[1] for n in notes if n.startswith('decoder:')} - {'version'})
     if bl['k'] == 'resp' and dec:
         w['decoder'] = dec[0]
@@ -857,14 +872,14 @@ def run(tier, replay=None):
     for act in ACTIONS:
         if act not in mc.coverage or mc.coverage[act][1] == 0:
             raise tlc.MachineryError('vacuous model: action %s never taken (%s)' % (act, mc.coverage))
-    expect = {'gen:keepbuf': 'C14.residue', 'gen:echo505': 'C14.invalid_response'}
+    expect = {'gen:keepbuf': ('C14.residue',), 'gen:echo505': ('C14.invalid_response', 'C14.close_mismatch')}
     gen_hists = []
     for k, clause in expect.items():
         g = results[k]
         if g.violated not in ('Conforms', 'NoResidue'):
             raise tlc.MachineryError('defect variant %s of HttpConn.tla violates %r, not Conforms: the model lost its teeth' % (k, g.violated))
         last = g.error_trace[-1][1] if g.error_trace else {}
-        if g.violated == 'Conforms' and last.get('bad') != clause:
+        if g.violated == 'Conforms' and last.get('bad') not in clause:
             raise tlc.MachineryError('defect variant %s fails with %r, expected %s' % (k, last.get('bad'), clause))
         if last.get('hist'):
             gen_hists.append(last['hist'])
